@@ -4,6 +4,7 @@ import (
 	"go/ast"
 	"go/token"
 	"go/types"
+	"strings"
 )
 
 // A Cond is a branch outcome known to hold when control reaches a node, in
@@ -80,7 +81,52 @@ func (fi *FuncInfo) guardsUpTo(n ast.Node, top ast.Node) []Cond {
 	for i := len(rev) - 1; i >= 0; i-- {
 		out = append(out, rev[i]...)
 	}
+	for i := range out {
+		if out[i].Kind == "bool" {
+			out[i].Expr = fi.orient(out[i].Expr)
+			// a negated comparison is the opposite comparison: !(a == b) is a != b, !(a < b) is a >= b
+			if be, ok := ast.Unparen(out[i].Expr).(*ast.BinaryExpr); ok && out[i].Neg {
+				if op, ok := map[token.Token]token.Token{token.EQL: token.NEQ, token.NEQ: token.EQL, token.LSS: token.GEQ, token.GEQ: token.LSS, token.GTR: token.LEQ, token.LEQ: token.GTR}[be.Op]; ok {
+					out[i].Expr = &ast.BinaryExpr{X: be.X, OpPos: be.OpPos, Op: op, Y: be.Y}
+					out[i].Neg = false
+				}
+			}
+		}
+	}
 	return fi.withHelperSuccess(out)
+}
+
+// orient is orientEq with type information: an operand with a constant value
+// (a named constant of any package) or nil goes to the right.
+func (fi *FuncInfo) orient(e ast.Expr) ast.Expr {
+	be, ok := ast.Unparen(e).(*ast.BinaryExpr)
+	if !ok {
+		return e
+	}
+	isC := func(x ast.Expr) bool {
+		if tv, ok := fi.Info.Types[x]; ok && tv.Value != nil {
+			return true
+		}
+		return fi.isNilIdent(x) || constLike(x)
+	}
+	if !isC(be.X) || isC(be.Y) {
+		return e
+	}
+	op := be.Op
+	switch be.Op {
+	case token.EQL, token.NEQ:
+	case token.LSS:
+		op = token.GTR
+	case token.GTR:
+		op = token.LSS
+	case token.LEQ:
+		op = token.GEQ
+	case token.GEQ:
+		op = token.LEQ
+	default:
+		return e
+	}
+	return &ast.BinaryExpr{X: be.Y, OpPos: be.OpPos, Op: op, Y: be.X}
 }
 
 // withHelperSuccess adds, for every passed success test of a linked helper's
@@ -281,7 +327,60 @@ func flatten(e ast.Expr, neg bool, at ast.Node) []Cond {
 			}
 		}
 	}
-	return []Cond{{Kind: "bool", Expr: e, Neg: neg, At: at}}
+	return []Cond{{Kind: "bool", Expr: orientEq(e), Neg: neg, At: at}}
+}
+
+// orientEq writes a comparison with its constant-like operand (literal, nil,
+// true/false, a named constant) on the right, so that `"" == x` and `x == ""`
+// are one condition for every rule that reads guards.
+func orientEq(e ast.Expr) ast.Expr {
+	be, ok := e.(*ast.BinaryExpr)
+	if !ok {
+		return e
+	}
+	var op token.Token
+	switch be.Op {
+	case token.EQL, token.NEQ:
+		op = be.Op
+	case token.LSS:
+		op = token.GTR
+	case token.GTR:
+		op = token.LSS
+	case token.LEQ:
+		op = token.GEQ
+	case token.GEQ:
+		op = token.LEQ
+	default:
+		return e
+	}
+	if constLike(be.X) && !constLike(be.Y) {
+		return &ast.BinaryExpr{X: be.Y, OpPos: be.OpPos, Op: op, Y: be.X}
+	}
+	return e
+}
+
+func constLike(e ast.Expr) bool {
+	switch x := ast.Unparen(e).(type) {
+	case *ast.BasicLit:
+		return true
+	case *ast.Ident:
+		if x.Name == "nil" || x.Name == "true" || x.Name == "false" {
+			return true
+		}
+		if x.Obj != nil && x.Obj.Kind == ast.Con {
+			return true
+		}
+	case *ast.UnaryExpr:
+		if x.Op == token.SUB {
+			return constLike(x.X)
+		}
+	case *ast.SelectorExpr:
+		// pkg.Const such as token.ARROW: upper-case selector on a lower-case package identifier
+		if id, ok := x.X.(*ast.Ident); ok && id.Obj == nil && ast.IsExported(x.Sel.Name) && !ast.IsExported(id.Name) && strings.ToUpper(x.Sel.Name) == x.Sel.Name {
+			return true
+		}
+	}
+	return false
 }
 
 // terminates reports whether control cannot fall out of the end of block b.
